@@ -161,7 +161,7 @@ def run(ctx, chk):
                 raise AnalysisBroken("%s: loop at %s has a shape the recogniser does not know (cannot decide termination)" % (g.name, r["where"]))
             chk.ob("C01.loops", "%s: %s loop" % (g.name, r["kind"]), r["ok"], r["where"], fn=g.name, key="%s:%s:%d" % (g.name, r["kind"], r["header"].id),
                    detail=r["detail"] if not r["ok"] else "")
-    chk.floor("C01.loops", "loops", nl, 25)
+    chk.floor("C01.loops", "loops", nl, 18)
     sccs = recursion.check_sccs(prog, eff)
     chk.floor("C01.descent", "recursive SCCs", len(sccs), 6)
     for r in sccs:
@@ -284,5 +284,5 @@ def run(ctx, chk):
             use = e.callee if e.kind == "call" else e.kind
             chk.ob("C01.null", "%s: %s result -> %s" % (g.name, origin.callee, use), ok, e.ins.loc(), fn=g.name,
                    key="%s:%s:%s" % (g.name, origin.callee, use), detail="" if ok else detail)
-    chk.floor("C01.null", "allocation result uses", nn, 100)
+    chk.floor("C01.null", "allocation result uses", nn, 70)
     chk.exhaustive = True
